@@ -6,7 +6,7 @@
    each document denotes (denote_xmi / denote_json) the content of the CAS written to it and loaded from it; the reader
    model load_json yields the loaded content; and on each of the four CASes the XMI view is inline_of of the JSON view —
    so that "XMI view of the final CAS = XMI view of the first-loaded CAS" is what the composition says. *)
-From Cassis Require Import Base Heap Schema Canon Lex JsonDoc Json CorrC02 Convert ConvertWf.
+From Cassis Require Import Base Heap Schema Canon Lex JsonDoc Json JsonWf CorrC02 Convert ConvertWf.
 From Cassis Require XmiDoc Xmi XmiRt XmiRtTotal.
 Open Scope Z_scope.
 
@@ -27,10 +27,10 @@ Definition json_denotes (s : schema) (d : json) (x : ccas) : bool :=
   doc_ok_json std_lex s d && res_ccas_eqb (denote_json std_lex s d) x.
 
 (* premises of the theorems in Props/C16.v, evaluated on the scenario CAS (the CAS loaded first in either chain has its
-   content): wf_convb (C16_inline_outline, C16_xmi_json_xmi, C16_json_xmi_json) and wf_rt_totalb (the XMI reader leg with reader totality, C01) *)
+   content): wf_convb (C16_inline_outline, C16_xmi_json_xmi, C16_json_xmi_json), typed_jsonb (C16_xmi_json_xmi_total) and wf_rt_totalb (the XMI reader leg with reader totality, C01) *)
 Definition premises (c : case) : bool :=
   let s := full_schema (k_user c) in
-  wf_convb s (k_cas c) && XmiRtTotal.wf_rt_totalb s (k_cas c).
+  wf_convb s (k_cas c) && typed_jsonb s (k_cas c) && XmiRtTotal.wf_rt_totalb s (k_cas c).
 (* the theorem C16_inline_outline on the scenario CAS, in model terms: both canonical views exist and are related, and they
    are the views observed of the CAS loaded first in chain B (which keeps the ids of the scenario) *)
 Definition model_views (c : case) : bool :=
